@@ -1253,3 +1253,282 @@ Proof.
   destruct (ro_find (ro_pending (fst (ro_recv_ack (r_read_only r) (m_from m) (m_context m)))) c) as [s1|];
     destruct (ro_find (ro_pending (r_read_only r)) c) as [s2|]; cbn [option_map] in *; congruence.
 Qed.
+
+(* ================================================================== *)
+(* 8. the follower side: forwarding, receiving the answer              *)
+(* ================================================================== *)
+
+(* forwarding a (term-less) MsgReadIndex: only [from] is filled in when it is unset *)
+Lemma send_readindex_exact r mm :
+  m_type mm = MsgReadIndex -> m_term mm = 0 ->
+  send r mm = Ok (r <| r_msgs := r_msgs r ++
+                      [if m_from mm =? INVALID_ID then mm <| m_from := r_id r |> else mm] |>).
+Proof.
+  intros Hty Ht. destruct mm as [ty to fr te lt ix en cm ct sn rs rj rh cx dp pri cc].
+  cbn in Hty, Ht. subst. unfold send. cbn [m_from].
+  destruct (fr =? INVALID_ID); reflexivity.
+Qed.
+
+Lemma send_readindex_gen r mm :
+  m_type mm = MsgReadIndex ->
+  send r mm = if negb (m_term mm =? 0) then Panic site_send_term_set
+              else Ok (r <| r_msgs := r_msgs r ++
+                            [if m_from mm =? INVALID_ID then mm <| m_from := r_id r |> else mm] |>).
+Proof.
+  intros Hty. destruct mm as [ty to fr te lt ix en cm ct sn rs rj rh cx dp pri cc].
+  cbn in Hty. subst. unfold send. cbn [m_from m_term].
+  destruct te; destruct (fr =? INVALID_ID); reflexivity.
+Qed.
+
+(* C08.5 (follower side, request): a follower with a known leader forwards MsgReadIndex
+   unchanged except for the destination (and [from], which is set to the follower itself if it
+   was unset: that is where the answer will be routed); without a leader the request is dropped *)
+Theorem follower_readindex_forward r m :
+  m_type m = MsgReadIndex ->
+  step_follower r m =
+    if r_leader_id r =? INVALID_ID then Ok (r, E_OK)
+    else r' <- send r (m <| m_to := r_leader_id r |>) ;; Ok (r', E_OK).
+Proof. intros Ht. unfold step_follower. rewrite Ht. reflexivity. Qed.
+
+Theorem follower_readindex_forward_exact r m r' c :
+  m_type m = MsgReadIndex -> step_follower r m = Ok (r', c) ->
+  c = E_OK /\
+  ((r_leader_id r = INVALID_ID /\ r' = r) \/
+   (r_leader_id r <> INVALID_ID /\ m_term m = 0 /\
+    r' = r <| r_msgs := r_msgs r ++
+                [if m_from m =? INVALID_ID
+                 then m <| m_to := r_leader_id r |> <| m_from := r_id r |>
+                 else m <| m_to := r_leader_id r |>] |>)).
+Proof.
+  intros Ht H. rewrite follower_readindex_forward in H by exact Ht.
+  destruct (r_leader_id r =? INVALID_ID) eqn:El.
+  - inversion H; subst. split; [reflexivity|]. left. apply N.eqb_eq in El. auto.
+  - inv_bind H. inversion H; subst. split; [reflexivity|]. right. apply N.eqb_neq in El.
+    split; [exact El|].
+    assert (Hterm : m_term m = 0).
+    { rewrite send_readindex_gen in Hx by (cbn; exact Ht).
+      change (m_term (m <| m_to := r_leader_id r |>)) with (m_term m) in Hx.
+      destruct (m_term m =? 0) eqn:E0; [apply N.eqb_eq; exact E0|discriminate]. }
+    split; [exact Hterm|].
+    rewrite send_readindex_exact in Hx by (cbn; assumption). inversion Hx; subst. reflexivity.
+Qed.
+
+(* C08.5 (follower side, answer): MsgReadIndexResp with exactly one entry appends the read
+   state (m_index, entry data) on this node (and may raise the commit index to m_index);
+   with any other number of entries it is ignored *)
+Theorem follower_readindex_resp r m :
+  m_type m = MsgReadIndexResp ->
+  step_follower r m =
+    match m_entries m with
+    | [e] =>
+        x <- RaftLog.maybe_commit (r_log r) (m_index m) (m_term m) ;;
+        Ok (r <| r_read_states := r_read_states r ++ [mkRS (m_index m) (e_data e)] |>
+              <| r_log := fst x |>, E_OK)
+    | _ => Ok (r, E_OK)
+    end.
+Proof.
+  intros Ht. unfold step_follower. rewrite Ht.
+  change (MsgReadIndexResp =? MsgPropose) with false. change (MsgReadIndexResp =? MsgAppend) with false.
+  change (MsgReadIndexResp =? MsgHeartbeat) with false. change (MsgReadIndexResp =? MsgSnapshot) with false.
+  change (MsgReadIndexResp =? MsgTransferLeader) with false.
+  change (MsgReadIndexResp =? MsgTimeoutNow) with false.
+  change (MsgReadIndexResp =? MsgReadIndex) with false.
+  change (MsgReadIndexResp =? MsgReadIndexResp) with true. cbv iota.
+  destruct (m_entries m) as [|e [|e2 rest]]; reflexivity.
+Qed.
+
+(* ================================================================== *)
+(* 9. reset drops every pending read                                   *)
+(* ================================================================== *)
+
+(* C08.6 *)
+Theorem reset_drops_reads r t r' :
+  reset r t = Ok r' ->
+  r_read_only r' = ro_new (ro_option (r_read_only r)) /\ r_read_states r' = r_read_states r.
+Proof.
+  unfold reset. intros H.
+  destruct (negb (r_term r =? t)); cbn in H;
+  match type of H with match ?d with _ => _ end = _ => destruct d end;
+    try discriminate; inversion H; subst; split; reflexivity.
+Qed.
+
+Theorem become_follower_drops_reads r t l r' :
+  become_follower r t l = Ok r' ->
+  r_read_only r' = ro_new (ro_option (r_read_only r)) /\ r_read_states r' = r_read_states r.
+Proof.
+  unfold become_follower. intros H. inv_bind H. inversion H; subst. cbn.
+  apply reset_drops_reads in Hx. exact Hx.
+Qed.
+
+Theorem become_candidate_drops_reads r r' :
+  become_candidate r = Ok r' ->
+  r_read_only r' = ro_new (ro_option (r_read_only r)) /\ r_read_states r' = r_read_states r.
+Proof.
+  unfold become_candidate. intros H. destruct (is_leader r); [discriminate|].
+  inv_bind H. inversion H; subst. cbn. apply reset_drops_reads in Hx. exact Hx.
+Qed.
+
+Lemma append_entry_lite r es r' ok :
+  append_entry r es = Ok (r', ok) ->
+  r_read_only r' = r_read_only r /\ r_read_states r' = r_read_states r /\
+  r_msgs r' = r_msgs r /\ r_id r' = r_id r /\ committed (r_log r') = committed (r_log r).
+Proof.
+  unfold append_entry, maybe_increase_uncommitted_size. intros H.
+  assert (Hla : forall l ents x, log_append l ents = Ok x -> committed (fst x) = committed l).
+  { intros l ents x Hl. unfold log_append in Hl. destruct ents; [inversion Hl; reflexivity|].
+    destruct (e_index e =? 0); [discriminate|]. destruct (_ <? _); [discriminate|].
+    inv_bind Hl. inversion Hl; subst. reflexivity. }
+  destruct (r_max_uncommitted_size r =? u64_max).
+  - cbn [negb] in H. inv_bind H. inversion H; subst. cbn. apply Hla in Hx. auto.
+  - match type of H with context [if ?c then (_, true) else _] => destruct c end; cbn [negb] in H.
+    + inv_bind H. inversion H; subst. cbn. apply Hla in Hx. auto.
+    + inversion H; subst. auto.
+Qed.
+
+Theorem become_leader_drops_reads r r' :
+  become_leader r = Ok r' ->
+  r_read_only r' = ro_new (ro_option (r_read_only r)) /\ r_read_states r' = r_read_states r.
+Proof.
+  unfold become_leader. intros H. destruct (role_eqb (r_state r) Follower); [discriminate|].
+  inv_bind H. apply reset_drops_reads in Hx. destruct Hx as [A B].
+  cif H; [discriminate|].
+  match type of H with match ?g with _ => _ end = _ => destruct g end; [|discriminate].
+  inv_bind H. destruct x0 as [r6 ok]. destruct ok; [|discriminate]. inversion H; subst.
+  apply append_entry_lite in Hx. destruct Hx as (C0 & D & _). cbn in C0, D.
+  rewrite C0, D. auto.
+Qed.
+
+(* ================================================================== *)
+(* 10. heartbeats: the follower echoes the context, at its own term;   *)
+(*     a lower-term heartbeat is never acknowledged                    *)
+(* ================================================================== *)
+
+Definition hb_resp (r : raft) (m : msg) (cmt : N) : msg :=
+  msg_default <| m_type := MsgHeartbeatResponse |> <| m_to := m_from m |>
+              <| m_context := m_context m |> <| m_commit := cmt |>
+              <| m_from := r_id r |> <| m_term := r_term r |>.
+
+(* C08.8a *)
+Theorem handle_heartbeat_exact r m r' :
+  handle_heartbeat r m = Ok r' ->
+  exists l', RaftLog.commit_to (r_log r) (m_commit m) = Ok l' /\
+    ((r_pending_request_snapshot r = INVALID_INDEX /\
+      r' = r <| r_log := l' |> <| r_msgs := r_msgs r ++ [hb_resp r m (committed l')] |>) \/
+     (r_pending_request_snapshot r <> INVALID_INDEX /\
+      send_request_snapshot (r <| r_log := l' |>) = Ok r')).
+Proof.
+  unfold handle_heartbeat. intros H. inv_bind H. exists x. split; [exact Hx|].
+  change (r_pending_request_snapshot (r <| r_log := x |>)) with (r_pending_request_snapshot r) in H.
+  destruct (r_pending_request_snapshot r =? INVALID_INDEX) eqn:E; cbn [negb] in H.
+  - left. apply N.eqb_eq in E. split; [exact E|].
+    rewrite send_plain in H by reflexivity. inversion H; subst. reflexivity.
+  - right. apply N.eqb_neq in E. auto.
+Qed.
+
+Lemma handle_heartbeat_msgs r m r' :
+  handle_heartbeat r m = Ok r' ->
+  exists x, r_msgs r' = r_msgs r ++ [x] /\ r_term r' = r_term r /\ r_id r' = r_id r /\
+    (m_type x = MsgHeartbeatResponse ->
+     m_context x = m_context m /\ m_to x = m_from m /\ m_from x = r_id r /\ m_term x = r_term r).
+Proof.
+  intros H. apply handle_heartbeat_exact in H. destruct H as (l' & _ & [(_ & ->)|(_ & H)]).
+  - eexists. split; [reflexivity|]. split; [reflexivity|]. split; [reflexivity|]. intros _. cbn. auto.
+  - unfold send_request_snapshot in H. inv_bind H. destruct x; [|discriminate].
+    rewrite send_plain in H by reflexivity. inversion H; subst. eexists.
+    split; [reflexivity|]. split; [reflexivity|]. split; [reflexivity|]. cbn. intros E. discriminate.
+Qed.
+
+Lemma hb_role r m r' c :
+  m_type m = MsgHeartbeat -> step_role r m = Ok (r', c) ->
+  exists new, r_msgs r' = r_msgs r ++ new /\ r_id r' = r_id r /\
+    (r_state r <> Follower -> r_state r <> Leader -> r_term r = m_term m) /\
+    (r_state r <> Leader -> r_term r' = match r_state r with Follower => r_term r | _ => m_term m end) /\
+    forall x, In x new -> m_type x = MsgHeartbeatResponse ->
+      m_context x = m_context m /\ m_to x = m_from m /\ m_from x = r_id r /\ m_term x = r_term r'.
+Proof.
+  intros Ht H. unfold step_role in H.
+  assert (Hcand : step_candidate r m = Ok (r', c) ->
+    exists new, r_msgs r' = r_msgs r ++ new /\ r_id r' = r_id r /\ r_term r = m_term m /\ r_term r' = m_term m /\
+      forall x, In x new -> m_type x = MsgHeartbeatResponse ->
+        m_context x = m_context m /\ m_to x = m_from m /\ m_from x = r_id r /\ m_term x = r_term r').
+  { clear H. intros H. unfold step_candidate in H. rewrite Ht in H.
+    change (MsgHeartbeat =? MsgPropose) with false in H. change (MsgHeartbeat =? MsgAppend) with false in H.
+    change (MsgHeartbeat =? MsgHeartbeat) with true in H. cbn [orb] in H. cbv iota in H.
+    destruct (r_term r =? m_term m) eqn:Et; cbn [negb] in H; [|discriminate]. apply N.eqb_eq in Et.
+    inv_bind H. inv_bind H. inversion H; subst.
+    apply become_follower_effect in Hx. destruct Hx as (A & _ & _ & _ & _ & B & C0 & _).
+    apply handle_heartbeat_msgs in Hx0. destruct Hx0 as (y & Hm & Hterm & Hid & Hy).
+    exists [y]. split; [rewrite Hm, B; reflexivity|]. split; [congruence|]. split; [exact Et|].
+    split; [congruence|].
+    intros z [<-|[]] Hz. destruct (Hy Hz) as (P & Q & R & S). rewrite P, Q, R, S.
+    repeat split; congruence. }
+  destruct (r_state r) eqn:Es.
+  - unfold step_follower in H. rewrite Ht in H.
+    change (MsgHeartbeat =? MsgPropose) with false in H. change (MsgHeartbeat =? MsgAppend) with false in H.
+    change (MsgHeartbeat =? MsgHeartbeat) with true in H. cbv iota in H.
+    inv_bind H. inversion H; subst. apply handle_heartbeat_msgs in Hx.
+    destruct Hx as (y & Hm & Hterm & Hid & Hy). cbn in Hm, Hterm, Hid, Hy.
+    exists [y]. split; [exact Hm|]. split; [exact Hid|]. split; [congruence|]. split; [intros _; exact Hterm|].
+    intros z [<-|[]] Hz. destruct (Hy Hz) as (P & Q & R & S). rewrite P, Q, R, S, Hterm. auto.
+  - destruct (Hcand H) as (new & A & B & C0 & D & E). exists new.
+    split; [exact A|]. split; [exact B|]. split; [intros _ _; exact C0|]. split; [intros _; exact D|exact E].
+  - unfold step_leader in H. rewrite Ht in H. cbn in H. inversion H; subst.
+    exists []. rewrite app_nil_r. split; [reflexivity|]. split; [reflexivity|].
+    split; [intros _ A; congruence|]. split; [intros A; congruence|]. intros x [].
+  - destruct (Hcand H) as (new & A & B & C0 & D & E). exists new.
+    split; [exact A|]. split; [exact B|]. split; [intros _ _; exact C0|]. split; [intros _; exact D|exact E].
+Qed.
+
+(* C08.8: whatever the state, a MsgHeartbeatResponse queued while handling a heartbeat echoes
+   the heartbeat's context, goes back to its sender, and is sent at the node's (new) term,
+   which for a heartbeat with a term is that very term and is never lower than the node's
+   previous term: a node at a higher term never acknowledges a lower-term heartbeat *)
+Theorem heartbeat_ack_only_current_term r m r' c :
+  m_type m = MsgHeartbeat -> step r m = Ok (r', c) ->
+  exists new, r_msgs r' = r_msgs r ++ new /\
+    forall x, In x new -> m_type x = MsgHeartbeatResponse ->
+      m_context x = m_context m /\ m_to x = m_from m /\ m_from x = r_id r /\
+      m_term x = r_term r' /\ (m_term m = 0 \/ (r_term r <= m_term m /\ r_term r' = m_term m)).
+Proof.
+  intros Ht H.
+  assert (Hh : (m_type m =? MsgHup) = false) by (rewrite Ht; reflexivity).
+  assert (Hv : (m_type m =? MsgRequestVote) || (m_type m =? MsgRequestPreVote) = false)
+    by (rewrite Ht; reflexivity).
+  destruct (N.eq_dec (m_term m) 0) as [E0|E0].
+  { rewrite step_same_term in H by auto. apply hb_role in H; [|exact Ht].
+    destruct H as (new & A & B & _ & _ & D). exists new. split; [exact A|].
+    intros x Hx Hty. destruct (D x Hx Hty) as (P & Q & R & S). auto 10. }
+  destruct (N.lt_trichotomy (m_term m) (r_term r)) as [Hlt|[Heq|Hgt]].
+  - rewrite step_lower_term in H by assumption. rewrite Ht in H.
+    change (MsgHeartbeat =? MsgRequestPreVote) with false in H.
+    destruct (_ && _).
+    + inv_bind H. inversion H; subst. rewrite send_plain in Hx by reflexivity. inversion Hx; subst.
+      eexists. split; [reflexivity|]. intros x [<-|[]] Hty. cbn in Hty. discriminate.
+    + inversion H; subst. exists []. rewrite app_nil_r. split; [reflexivity|]. intros x [].
+  - rewrite step_same_term in H by auto. pose proof H as H2. apply hb_role in H; [|exact Ht].
+    destruct H as (new & A & B & _ & Ct & D). exists new. split; [exact A|].
+    intros x Hx Hty. destruct (D x Hx Hty) as (P & Q & R & S). repeat split; auto.
+    right. split; [lia|].
+    destruct (r_state r) eqn:Es; try (rewrite Ct by congruence; congruence).
+    (* leader: no new message *)
+    unfold step_role in H2. rewrite Es in H2. unfold step_leader in H2. rewrite Ht in H2. cbn in H2.
+    inversion H2; subst. rewrite <- app_nil_r in A at 1. apply app_inv_head in A. subst new. destruct Hx.
+  - (* higher term: become follower at that term first *)
+    unfold step in H.
+    assert (E1 : (m_term m =? 0) = false) by (apply N.eqb_neq; exact E0).
+    assert (E2 : (r_term r <? m_term m) = true) by (apply N.ltb_lt; exact Hgt).
+    rewrite E1, E2, Hh, Ht in H.
+    change (MsgHeartbeat =? MsgRequestVote) with false in H.
+    change (MsgHeartbeat =? MsgRequestPreVote) with false in H.
+    change (MsgHeartbeat =? MsgRequestPreVoteResponse) with false in H.
+    change (MsgHeartbeat =? MsgAppend) with false in H.
+    change (MsgHeartbeat =? MsgHeartbeat) with true in H.
+    cbn [orb andb] in H. cbv iota in H. inv_bind H. inv_bind Hx. inversion Hx; subst. clear Hx.
+    apply become_follower_effect in Hx0. destruct Hx0 as (A & _ & _ & Bs & _ & Bm & Bi & _).
+    rewrite Bs in H. fold (step_role x0 m) in H.
+    assert (Hrole : step_role x0 m = Ok (r', c)) by (unfold step_role; rewrite Bs; exact H).
+    apply hb_role in Hrole; [|exact Ht].
+    destruct Hrole as (new & Am & Ai & _ & Ct & D). exists new. rewrite <- Bm. split; [exact Am|].
+    intros x Hx Hty. destruct (D x Hx Hty) as (P & Q & R & S). rewrite <- Bi.
+    repeat split; auto. right. split; [lia|]. rewrite Ct by congruence. rewrite Bs. exact A.
+Qed.
